@@ -44,7 +44,7 @@ func noPanic(r *sim.Run, f func()) (perr error) {
 					panic(rec) // stopRun and friends
 				}
 			}
-			r.Probe("decode-panicked(counted-as-reject)")
+			r.Probe("library-panicked(counted-as-reject/failure)")
 			perr = fmt.Errorf("panic: %v", rec)
 		}
 	}()
@@ -159,7 +159,7 @@ func c03Run(r *sim.Run) {
 	if t.Chance(450) {
 		units, err := work.ParseUnits(x)
 		if err == nil {
-			ops := work.Transport(r, &units, 1+t.Draw(2), t.Chance(400), []string{"splice", "dup", "swap", "move", "drop"})
+			ops := work.Transport(r, &units, 1+t.Draw(2), t.Chance(400), []string{"splice", "dup", "swap", "move", "drop", "largesize"})
 			x = work.Serialize(units, true)
 			r.Logf("unit transport on %s: %v -> %d bytes", name, ops, len(x))
 			name += "+transport"
@@ -285,7 +285,8 @@ func c03Encoders(r *sim.Run) {
 		runW()
 		runS()
 	}
-	sFail := sErr != nil || sAcc != nil
+	sFail := sErr != nil
+	_ = sAcc
 	wFail := wErr != nil
 	switch {
 	case wFail != sFail:
@@ -311,8 +312,8 @@ func c03Encoders(r *sim.Run) {
 		if c < n {
 			r.Fault("slice-short")
 		}
-		if (e1 != nil) != (e2 != nil || a2 != nil) {
-			r.Violate("c03-encoders-capacity", "%s: with capacity %d (encoding is %d bytes) Encode err=%v but EncodeSW err=%v acc=%v", nd.desc, c, n, e1, e2, a2)
+		if (e1 != nil) != (e2 != nil) {
+			r.Violate("c03-encoders-capacity", "%s: with capacity %d (encoding is %d bytes) Encode err=%v but EncodeSW err=%v (accumulated error %v)", nd.desc, c, n, e1, e2, a2)
 		}
 	}
 }
